@@ -136,7 +136,7 @@ def replay_decoder(ctx, g, variant):
 def run(ctx):
     fs = forms(ctx.tier)
     K = dict(Bnd=M.BND, Forms=frozenset(fs), Preambles=frozenset({(), ("x", "d", "d")}), MaxChunk=3 if ctx.tier == "quick" else 4,
-             Limits=frozenset({M.Rec(parts=M.UNL, mem=M.UNL)}), HoldFix=True)
+             Limits=frozenset({M.Rec(parts=M.UNL, mem=M.UNL)}), HoldFix=True, OpenFix=True)
     ctx.bounds = {"forms": len(fs), "MaxChunk": K["MaxChunk"], "content_alphabet": "r n d b x (s in thorough)", "max_content": 3}
     ctx.rule = ("decoder level: every edge of the TLC graph (all chunkings with chunks <= MaxChunk symbols) executed once on a real "
                 "MultipartDecoder; helper level: every form x {parse_stream, parse_async_stream, wsgi form, asgi form} x byte-level "
@@ -182,6 +182,13 @@ def run(ctx):
                         ctx.violation({"body": body.decode("latin-1"), "chunks": [c.decode("latin-1") for c in ch], "api": which},
                                       want, {"outcome": out, "items": items},
                                       "%s does not return exactly the encoded parts" % which)
+    # code -> spec: long sessions on real decoders validated step by step by TLC (TraceMultipart.tla)
+    from .. import mp_trace
+    nev = mp_trace.long_sessions(ctx, wd, 60 if ctx.tier == "quick" else 600, rnd, "C01")
+    nrepo = mp_trace.pytest_sessions(ctx, wd, common.REPO, tlc.VERIF)
+    ctx.bounds["long_sessions"] = {"per_boundary": 60 if ctx.tier == "quick" else 600, "boundaries": len(mp_trace.BOUNDARIES), "events": nev,
+                                   "repository_test_sessions": nrepo}
+    ctx.notes.append("TraceMultipart: %d events of long decoder sessions and %d decoder sessions of the repository's tests validated" % (nev, nrepo))
     ctx.sample({"form": [dict(p) for p in fs[40]], "body": M.conc_seq(body_symbols(fs[40], ()), 0).decode("latin-1")})
 
 
